@@ -1,9 +1,9 @@
 (* C20, part 4: KNOWN REACHABLE PANICS and REGRESSION GUARDS.  Concrete small states of the
    node model on which a library call returns [Panic site] although the caller follows the
    Ready/advance contract and every message is one a library peer can produce
-   ((i) term-0 pre-vote reject, (iii) unpersisted tail, (vi) campaign on a removed node:
-   OPEN).  (ii) self-removed leader, (iv) apply-limit overflow and (v) non-contiguous
-   batching were fixed in /repo (e9967b2, 63caa76, cc6f146) while this file was written:
+   ((i) term-0 pre-vote reject: OPEN).  (ii) self-removed leader, (iii) unpersisted tail,
+   (iv) apply-limit overflow, (v) non-contiguous batching and (vi) campaign on a removed
+   node were fixed in /repo (e9967b2, 19c179c, 63caa76, cc6f146, 8deb47c) while this file was written:
    their witnesses are now guards stating that the same calls in the same states return
    Ok, plus the general theorems behind the fixes.
    Each witness is checked by computation ([vm_compute]); where it is cheap the
@@ -266,9 +266,13 @@ Proof.
 Qed.
 
 (* ================================================================== *)
-(* (iii) *)
-Theorem known_leader_unpersisted_tail_witness :
-  exists n m n1 n2,
+(* (iii) F7, FIXED in /repo 19c179c (become_leader no longer asserts last_index =
+   persisted).  REGRESSION GUARD: in the former witness schedule the election timeout now
+   makes the single voter leader of term 6 with its unpersisted tail; nothing beyond the
+   persisted index is committed.  Before the fix rn_tick returned
+   [Panic site_leader_persisted]. *)
+Theorem fixed_leader_unpersisted_tail_guard :
+  exists n m n1 n2 n3,
     r_state (rn_raft n) = Leader /\
     voter_ids (conf_of (rn_raft n)) = [r_id (rn_raft n)] /\      (* single voter *)
     persisted (r_log (rn_raft n)) < last_index (r_log (rn_raft n)) /\  (* async-written tail *)
@@ -277,17 +281,21 @@ Theorem known_leader_unpersisted_tail_witness :
     rn_step n m = Ok (n1, E_OK) /\                    (* accepted: steps down to term 5 *)
     r_state (rn_raft n1) = Follower /\ r_term (rn_raft n1) = m_term m /\
     ticks 11 n1 = Ok n2 /\ r_state (rn_raft n2) = Follower /\
-    rn_tick n2 = Panic site_leader_persisted /\
-    tick (rn_raft n2) = Panic site_leader_persisted.
+    rn_tick n2 = Ok (n3, true) /\
+    r_state (rn_raft n3) = Leader /\ r_term (rn_raft n3) = 6 /\
+    last_index (r_log (rn_raft n3)) = 4 /\ persisted (r_log (rn_raft n3)) = 2 /\
+    committed (r_log (rn_raft n3)) = 2.
 Proof.
-  exists k_solo_node, k_vote9. eexists. eexists.
+  exists k_solo_node, k_vote9. eexists. eexists. eexists.
   split; [reflexivity|]. split; [vm_compute; reflexivity|].
   split; [vm_compute; reflexivity|]. split; [reflexivity|].
   split; [reflexivity|]. split; [vm_compute; reflexivity|].
   split; [vm_compute; reflexivity|].
   split; [reflexivity|]. split; [reflexivity|].
   split; [vm_compute; reflexivity|].
-  split; [reflexivity|]. split; vm_compute; reflexivity.
+  split; [reflexivity|]. split; [vm_compute; reflexivity|].
+  split; [reflexivity|]. split; [reflexivity|].
+  split; [vm_compute; reflexivity|]. split; reflexivity.
 Qed.
 
 (* ================================================================== *)
@@ -424,32 +432,22 @@ Proof.
 Qed.
 
 (* ================================================================== *)
-(* (vi) NEW finding of this work: campaign() on a removed node that then wins. *)
-Theorem known_removed_node_campaign_witness :
-  exists n n1 g2 n2 g3,
+(* (vi) found by this work, FIXED in /repo 8deb47c (hup returns at once on a node that is
+   not promotable).  REGRESSION GUARD: campaign() on the removed node is a no-op.  Before
+   the fix the node became candidate, the two remaining voters granted, and the second
+   grant returned [Panic site_self_progress] from become_leader. *)
+Theorem fixed_removed_node_campaign_guard :
+  exists n,
     get_pr (rn_raft n) (r_id (rn_raft n)) = None /\               (* not tracked: removed *)
     voters_contains (conf_of (rn_raft n)) (r_id (rn_raft n)) = false /\
     r_promotable (rn_raft n) = false /\ r_state (rn_raft n) = Follower /\
-    rn_tick n = Ok (n <| rn_raft := (rn_raft n) <| r_election_elapsed := 1 |> |>, false) /\
-                                                                  (* ticks never campaign *)
-    rn_campaign n = Ok (n1, E_OK) /\                              (* the application does *)
-    r_state (rn_raft n1) = Candidate /\ r_term (rn_raft n1) = r_term (rn_raft n) + 1 /\
-    map (fun m => (m_type m, m_to m)) (r_msgs (rn_raft n1)) = [(MsgRequestVote, 2); (MsgRequestVote, 3)] /\
-    m_type g2 = MsgRequestVoteResponse /\ m_reject g2 = false /\ m_from g2 = 2 /\
-    m_type g3 = MsgRequestVoteResponse /\ m_reject g3 = false /\ m_from g3 = 3 /\
-    m_term g2 = r_term (rn_raft n1) /\ m_term g3 = r_term (rn_raft n1) /\
-    rn_step n1 g2 = Ok (n2, E_OK) /\ r_state (rn_raft n2) = Candidate /\
-    rn_step n2 g3 = Panic site_self_progress.
+    rn_campaign n = Ok (n, E_OK).
 Proof.
-  exists k_removed_node. eexists. exists (k_grant 2). eexists. exists (k_grant 3).
+  exists k_removed_node.
   split; [vm_compute; reflexivity|]. split; [vm_compute; reflexivity|].
-  split; [reflexivity|]. split; [reflexivity|].
-  split; [vm_compute; reflexivity|].
-  split; [vm_compute; reflexivity|].
-  split; [reflexivity|]. split; [vm_compute; reflexivity|]. split; [vm_compute; reflexivity|].
-  split; [reflexivity|]. split; [reflexivity|]. split; [reflexivity|].
-  split; [reflexivity|]. split; [reflexivity|]. split; [reflexivity|].
-  split; [vm_compute; reflexivity|]. split; [vm_compute; reflexivity|].
-  split; [vm_compute; reflexivity|]. split; [reflexivity|].
-  vm_compute. reflexivity.
+  split; [reflexivity|]. split; [reflexivity|]. vm_compute. reflexivity.
 Qed.
+
+(* the general statement behind the guard *)
+Theorem hup_not_promotable r tl : r_promotable r = false -> hup r tl = Ok r.
+Proof. intros H. unfold hup. destruct (is_leader r); [reflexivity|]. rewrite H. reflexivity. Qed.
